@@ -149,6 +149,17 @@ def _refinement_functions(ana):
     body = _drop_current_assign(copy.deepcopy(last_if[0].orelse))
     body = [_Refine("__none__").visit(s_) for s_ in body] + [ast.Return(value=ast.Constant(value=None))]
     fns.append(_mkfn("refine_iszero_false", ["current"], body, {"current": "ValueRange"}))
+    # refine_eq_vars(lhs_range, rhs_range): the var/var arm of _apply_eq (pure helper method _eq_range)
+    er = _method(ana, cls, "_eq_range")
+    body = [s_ for s_ in er.body if not (isinstance(s_, ast.Expr) and isinstance(s_.value, ast.Constant))]
+    fns.append(_mkfn("refine_eq_vars", ["lhs_range", "rhs_range"], copy.deepcopy(body),
+                     {"lhs_range": "ValueRange", "rhs_range": "ValueRange"}))
+    # the arm itself must be: new_range = self._eq_range(..); if new_range is not None: write lhs, write rhs
+    ae = ast.unparse(_method(ana, cls, "_apply_eq"))
+    want = ("new_range = self._eq_range(lhs_range, rhs_range)\n        if new_range is not None:\n"
+            "            self._write_range(state, lhs, new_range)\n            self._write_range(state, rhs, new_range)")
+    if want not in ae:
+        raise SliceError("_apply_eq: var/var arm does not have the expected shape")
     return fns
 
 
@@ -248,7 +259,7 @@ def gen_coq():
     tr.arg_types_hint[("unsigned_to_signed", "strict")] = Ty.B
     tr.arg_types_hint[("int_bounds", "signed")] = Ty.B
     VRo = opt(VR)
-    tr.ret_hints.update({"narrow": VRo, "refine_compare_left": VRo, "refine_compare_right": VRo, "refine_iszero_false": VRo})
+    tr.ret_hints.update({"narrow": VRo, "refine_compare_left": VRo, "refine_compare_right": VRo, "refine_iszero_false": VRo, "refine_eq_vars": VRo})
     tr.attr_bindings[(VR, "clamp")] = dict(coq="vr_clamp2", ret=VR, call=True, args=[Ty.Z, Ty.Z])
     tr.attr_bindings[(VR, "clamp_hi")] = dict(coq="vr_clamp_hi", ret=VR, call=True, args=[Ty.Z])
     tr.attr_bindings[(VR, "intersect")] = dict(coq="vr_intersect", ret=VR, call=True, args=[VR])
@@ -256,6 +267,6 @@ def gen_coq():
     tr.bindings["ValueRange.constant"] = dict(coq="vr_constant", args=[Ty.Z], ret=VR)
     tr.type_names["str"] = Ty.S
     for f in ["add_elim_cond", "sub_elim_cond", "_range_excludes_zero", "signextend_noop_cond", "range_cmp_kernel",
-              "narrow", "refine_compare_left", "refine_compare_right", "refine_iszero_false"]:
+              "narrow", "refine_compare_left", "refine_compare_right", "refine_iszero_false", "refine_eq_vars"]:
         tr.translate_function(f)
     return tr.render(header="From Verif Require Import C14.RangeBase."), src
